@@ -295,7 +295,19 @@ func runC14(p *core.Prog, r *core.Report, tier string) {
 			cd := ds.D(coll)
 			r.Check(cd.MentionsCall("SignSlotSelections"), "C14.e", construct+"|index", p.Pos(st.Pos()), "stored at the index of the loop over the slot-selection signatures", "index does not range over the signatures: "+cd.String())
 			vd := ds.D(st.Val)
-			// value: (… % modulo) == 0
+			// value: (… % modulo) == 0 — when the rule was moved into a helper with an error result, on the leaf that
+			// can reach the store (the helper's failure exits return before the flag is stored)
+			if leaves := core.FeasibleLeaves(f, st.Val, st); len(leaves) > 0 {
+				for _, lf := range leaves {
+					ld := ds.D(lf.V)
+					if ld.Kind == "binop" {
+						vd = ld
+					}
+				}
+				if len(leaves) == 1 {
+					vd = ds.D(leaves[0].V)
+				}
+			}
 			okShape := vd.Kind == "binop" && vd.Name == "==" && vd.Args[0].Kind == "binop" && vd.Args[0].Name == "%"
 			r.Check(okShape, "C14.e", construct+"|shape", p.Pos(st.Pos()), "flag is (hash % modulo) == 0", "flag is not of the form (hash % modulo) == 0: "+vd.String())
 			if okShape {
